@@ -464,14 +464,14 @@ inline PSpec gen_pspec(int f, bool may_depend) {
 inline AppSpec gen_spec() {
   AppSpec s;
   s.short_names = vf::chance(20);
-  s.nested = vf::chance(20);
+  s.nested = vf::chance(30);
   s.set_mode();
   const bool rich = vf::chance(8);   // an application with every kind of parameter and every kind of sub-tree (savefiles of 40..70 lines)
   auto maybe = [&](int pct) { return rich || vf::chance(pct); };
   bool presets = maybe(60);
   if (presets) { PSpec p; p.field = PRESET; p.has_range = true; p.mn = 0; p.mx = 2; p.has_default = true; p.has_preset.assign(3, 0); Val d; d.i = vf::pickn(3); p.dflt.assign(4, d); s.root.push_back(p); }
   for (int f = RI; f < EN; f++) if (maybe(55)) s.root.push_back(gen_pspec(f, presets));
-  if (maybe(35)) s.root.push_back(gen_pspec(VP, false));
+  if (maybe(s.nested ? 60 : 35)) s.root.push_back(gen_pspec(VP, false));
   if (maybe(30)) s.root.push_back(gen_pspec(RB, presets));
   if (maybe(35)) s.root.push_back(gen_pspec(RTA, presets));
   s.has_sub = maybe(75); s.has_psub = maybe(40); s.has_subs = maybe(40); s.psub_null = !rich && vf::chance(40);
@@ -491,7 +491,7 @@ inline AppSpec gen_spec() {
     for (auto &p : s.root) { if (p.field == RI) has_ri = true; if (p.field == RT) has_rt = true; }
     // several parameters may declare rDepends(ri[, rt]): ri in turn may depend on the preset, rt on nothing
     for (auto &p : s.root)
-      if (has_ri && p.field != RI && p.field != PRESET && p.field != RT && p.field != EN && vf::chance(p.field == RJ ? 60 : 25)) { p.depends_on = RI; if (has_rt && vf::chance(50)) p.depends_on2 = RT; } }
+      if (has_ri && p.field != RI && p.field != PRESET && p.field != RT && p.field != EN && vf::chance(p.field == RJ ? 60 : p.field == VP ? 55 : 25)) { p.depends_on = RI; if (has_rt && vf::chance(p.field == VP ? 75 : 50)) p.depends_on2 = RT; } }   // the two-component port more often, and more often with the second entry
   // random order of the root parameter ports (the preset port may come after its dependants)
   for (size_t i = s.root.size(); i > 1; i--) std::swap(s.root[i - 1], s.root[(size_t)vf::pickn((int)i)]);
   return s;
